@@ -251,6 +251,12 @@ class InitGlobalsBounded(Unit):
             minecraft.KNOWN_MINECRAFT_VERSION_RECORDS[:] = saved
             minecraft.initglobals(use_known_records=True)
         E.check('init.idempotent-on-shipped-table', before == mid == after)
+        # "all updates are done by reference": every module that imported a table must still see the rebuilt one
+        from minecraft.networking import connection as cm
+        shared = [(utility, 'PROTOCOL_VERSION_INDICES'), (cm, 'PROTOCOL_VERSION_INDICES'), (cm, 'KNOWN_MINECRAFT_VERSIONS'),
+                  (cm, 'SUPPORTED_MINECRAFT_VERSIONS'), (cm, 'SUPPORTED_PROTOCOL_VERSIONS')]
+        E.check('init.tables-updated-in-place', all(getattr(m, n) is getattr(minecraft, n) for m, n in shared),
+                note='after re-initialisation the importing modules hold the SAME table objects as the package')
         return None
 
     def replay(self, model, label):
@@ -274,6 +280,24 @@ class InitGlobalsBounded(Unit):
                     cnt += 1
                     want = spec_tables(minecraft.KNOWN_MINECRAFT_VERSION_RECORDS)
                     got = snapshot()
+                    # the comparison functions (which imported the index table) must follow the rebuilt order
+                    kp = want['KNOWN_PROTOCOL_VERSIONS']
+                    for a_i in range(len(kp)):
+                        for b_i in range(len(kp)):
+                            try:
+                                r = utility.protocol_earlier(kp[a_i], kp[b_i])
+                                r2 = ConnectionContext(protocol_version=kp[b_i]).protocol_later(kp[a_i])
+                            except Exception as e:
+                                r = r2 = repr(e)
+                            if r is not (a_i < b_i) or r2 is not (a_i < b_i):
+                                fails.append(dict(call='protocol_earlier(%d, %d) after rebuilding from %r' % (
+                                    kp[a_i], kp[b_i], minecraft.KNOWN_MINECRAFT_VERSION_RECORDS), observed='%r' % (r,),
+                                    witness='initglobals-stale-comparison'))
+                                break
+                        if fails:
+                            break
+                    if fails:
+                        break
                     if got != want:
                         diff = [k for k in TABLES if got[k] != want[k]]
                         fails.append(dict(call='initglobals(True) after records %r' % (minecraft.KNOWN_MINECRAFT_VERSION_RECORDS,),
@@ -294,4 +318,5 @@ class InitGlobalsBounded(Unit):
 
 
 def units(tier):
-    return [OrderUnit(), Chronology(), InitGlobalsBounded()]
+    from . import c08_init
+    return [OrderUnit(), Chronology(), InitGlobalsBounded()] + (c08_init.units(tier) if tier == 'thorough' else [])
